@@ -151,6 +151,16 @@ def run_case(rec, Kx, Ky, N, per, orient, axis, op, target, ri, li, seed, pre=No
         except Exception as e:
             rec.violation("op", "raise-along-unlinked-axis:" + exc_sig(e), case, "array", f"{type(e).__name__}: {e}"[:200])
             return
+    if (ri + li + len(target)) % 4 == 2:
+        # an earlier call on this Grid that is refused (an unknown boundary word, inside cumsum's own padding): the
+        # operation that follows is answered as if it came first
+        try:
+            with warnings.catch_warnings():
+                warnings.simplefilter("ignore")
+                g.cumsum(xr.DataArray(np.zeros((D.nf, N, N)), dims=["face", "yc", "xc"]), axis, to="left", boundary="no-such-rule")
+            rec.counters["unknown-boundary-word-accepted-by-cumsum"] += 1
+        except Exception:
+            rec.counters["earlier-refused-call"] += 1
     da = xr.DataArray(F, dims=["face", "yc", "xc"])
     if "t" in layout:
         da = xr.concat([da, -da + 3], dim="t")
